@@ -88,6 +88,9 @@ Record fstate := {
 Definition finit (d0 : Z) : fstate :=
   {| fb := init d0; gth := []; uth := []; vtx := VIdle; vvr := VIdle |}.
 
+(* fhead = the code BEFORE fix-F-C11a (no re-check; the REFUTED variant of
+   PropertyFine.v; the name dates from when that was /repo's HEAD); ffixed = the
+   code with the re-check = /repo now.  Unrelated to Failsafe.evariant / ehead. *)
 Record fvariant := { recheck_anchor : bool }.
 Definition fhead : fvariant := {| recheck_anchor := false |}.
 Definition ffixed : fvariant := {| recheck_anchor := true |}.
